@@ -35,6 +35,7 @@ public:
     static auto last_cleanup(Node& n) { return n.last_cleanup_; }
     static std::recursive_mutex& mtx(Node& n) { return n.scheduler_mutex_; }
     static void handle_request(Node& n, const protocol::RequestPayload& p, const PeerId& s) { n.handle_request(p, s); }
+    static void handle_acknowledge(Node& n, const protocol::AcknowledgePayload& p, const PeerId& s) { n.handle_acknowledge(p, s); }
     static void handle_chunk(Node& n, const protocol::ChunkPayload& p, const PeerId& s) { n.handle_chunk(p, s); }
     static void handle_announce(Node& n, const protocol::AnnouncePayload& p, const PeerId& s, std::uint8_t v) { n.handle_announce(p, s, v); }
 };
@@ -124,7 +125,44 @@ struct Driver {
         return "{\"chunks\":" + ev::jlist(chunks) + ",\"listed\":" + ev::jlist(listed) + ",\"cache\":" + ev::jlist(cache) + ",\"shard\":" + ev::jlist(shard) +
                ",\"loc\":" + ev::jlist(loc) + ",\"pend\":" + ev::jlist(pend) + ",\"plans\":" + ev::jlist(plans) + "}";
     }
-    void fin(ev::Ev& e) { e.i("t", now_ms()).raw("proj", proj()); e.emit(); }
+    void fin(ev::Ev& e) { e.i("t", now_ms()).raw("proj", proj()); e.emit(); late_serves(); }
+
+    // what a peer obtains when it decrypts a CHUNK message with the manifest A holds for the chunk at that moment
+    int chunk_class(long id, const protocol::ChunkPayload& cp) {
+        std::optional<protocol::Manifest> man;
+        { std::unique_lock<std::recursive_mutex> lk(Acc::mtx(*a)); auto it = Acc::cache(*a).find(chunk_id_to_string(cid(id))); if (it != Acc::cache(*a).end()) man = it->second; }
+        std::optional<ChunkData> plain;
+        if (man && man->threshold > 0 && man->shards.size() >= man->threshold) {
+            std::vector<crypto::ShamirShare> shares;
+            for (auto& sh : man->shards) { crypto::ShamirShare x{}; x.index = sh.index; x.value = sh.value; shares.push_back(x); }
+            try {
+                crypto::Key k{}; k.bytes = crypto::Shamir::combine(shares, man->threshold);
+                plain = crypto::CryptoManager::decrypt_with_key(k, cid(id), std::span<const std::uint8_t>(cp.data), man->nonce);
+            } catch (const std::exception&) {}
+        }
+        return plain ? classify(*plain) : -3;
+    }
+    // a request that had to wait in the upload queue is answered later (at an acknowledgement or a tick): whatever reaches a peer
+    // outside its own peerreq step is a serve of that chunk at THIS instant
+    bool in_late = false;
+    void late_serves() {
+        if (in_late) return;
+        in_late = true;
+        std::vector<long> ps;
+        for (auto& kv : stubs) ps.push_back(kv.first);
+        for (long p : ps) {
+            for (auto& m : drain_stub(p)) {
+                if (m.type != protocol::MessageType::Chunk) continue;
+                if (auto* cp = std::get_if<protocol::ChunkPayload>(&m.payload)) {
+                    const long id = cnum(chunk_id_to_string(cp->chunk_id));
+                    if (id < 0) continue;
+                    ev::Ev e("get"); e.i("c", id).s("via", "peerlate").i("p", p).s("res", "hit").i("b", chunk_class(id, *cp));
+                    e.i("t", now_ms()).raw("proj", proj()); e.emit();
+                }
+            }
+        }
+        in_late = false;
+    }
 
     // ------- peer stub: a socketpair end adopted by A as the session of peer p -----------------------
     void ensure_stub(long p) {
@@ -265,6 +303,13 @@ struct Driver {
                 }
             }
             ev::Ev e("get"); e.i("c", id).s("via", "peerreq").i("p", p).s("res", res).i("b", cls); fin(e);
+        } else if (op == "peerack") {
+            // the peer acknowledges a transfer: its slot is released and requests that waited for it are dispatched
+            long id = c.i("c"), p = c.i("p", 1);
+            ensure_stub(p);
+            protocol::AcknowledgePayload ap{cid(id), pid(p), c.i("ok", 1) != 0};
+            Acc::handle_acknowledge(*a, ap, pid(p));
+            ev::Ev e("mk"); e.s("what", "peerack").i("c", id).i("p", p); fin(e);
         } else if (op == "list") {
             std::vector<long long> ids;
             for (auto& s : a->stored_chunks()) ids.push_back(cnum(s.key));
